@@ -2,6 +2,7 @@
 tree_add / tree_clip_by_global_norm and aggregators.mean_aggregator().apply against the
 translated functions (coq/gen/Gen_tree_util.v) and the property's own wording."""
 import math
+import random
 from fractions import Fraction
 
 import numpy as np
@@ -66,15 +67,26 @@ def build(st, flat, mk, pos=None, cplx=False):
     if cplx:
       vals = flat[pos[0]:pos[0] + 2 * n]
       pos[0] += 2 * n
+      vals = [_num(v) for v in vals]
       a = np.array(vals[0::2], dtype=np.float64) + 1j * np.array(vals[1::2], dtype=np.float64)
       return mk(a.reshape(st[1]))
-    vals = flat[pos[0]:pos[0] + n]
+    vals = [_num(v) for v in flat[pos[0]:pos[0] + n]]
     pos[0] += n
     return mk(np.array(vals, dtype=np.float64).reshape(st[1]))
   if st[0] == 'd':
-    return {k: build(st[1][k], flat, mk, pos, cplx) for k in sorted(st[1])}
+    items = [(k, build(st[1][k], flat, mk, pos, cplx)) for k in sorted(st[1])]     # values follow the flattening order
+    _INS[0] += 1
+    r = _INS[0] % max(len(items), 1)
+    return dict(items[r:][::-1] + items[:r])                                        # ... the insertion order does not
   subs = [build(s, flat, mk, pos, cplx) for s in st[1]]
   return subs if st[0] == 'l' else tuple(subs)
+
+
+_INS = [0]
+
+
+def _num(v):
+  return {'nan': float('nan'), 'inf': float('inf'), '-inf': float('-inf')}[v] if isinstance(v, str) else float(v)
 
 
 def dyadic(rng, den=8, lim=40):
@@ -210,6 +222,62 @@ def generate(tier, rng):
       yield {'kind': 'sum', 'struct': st, 'trees': [[dyadic(rng) for _ in range(size(st))] for _ in range(n)], 'weights': [],
              'perm': list(range(n)), 'input': form, 'wtype': 'float', 'leaf': 'jax' if j % 3 else 'np', 'tol': 0.0,
              'dtype': 'float32', 'kw': False, 'ctx': 'eager'}
+  # ---- joint magnitude sweep (exact: everything is scaled by powers of two).  Clipping: tree norm 5 * 2^k against
+  # bounds above / equal / below it and against bounds of an unrelated magnitude 2^j; within one ulp of the norm on both
+  # sides.  Means: data scale 2^k, weight scale 2^j.  (2^-55 .. 2^60: squares stay normal float32 numbers.)
+  ks = [-55, -40, -30, -24, -23, -20, -10, 0, 20, 40, 60]
+  sweep = [(k, m) for k in ks for m in ('x2', 'eq', 'half', 'quarter', 'ulp-above', 'ulp-below', 'other')]
+  if tier == 'quick':
+    sweep = [sw for i_, sw in enumerate(sweep) if i_ % 2 == 0]
+  for i, (k, m) in enumerate(sweep):
+    sgn = [rng.choice([1, -1]) for _ in range(2)]
+    st = [['a', [2]], ['d', {'w': ['a', [1]], 'b': ['a', [2]]}], ['l', [['a', []], ['a', [1, 2]]]]][i % 3]
+    flat = [3.0 * sgn[0] * 2.0 ** k, 4.0 * sgn[1] * 2.0 ** k] + [0.0] * (size(st) - 2)
+    rng.shuffle(flat)
+    norm = 5.0 * 2.0 ** k
+    if m == 'other':
+      c = 2.0 ** rng.choice([j for j in ks if j != k])
+    else:
+      c = {'x2': norm * 2, 'eq': norm, 'half': norm / 2, 'quarter': norm / 4,
+           'ulp-above': float(np.nextafter(np.float32(norm), np.float32(np.inf))),
+           'ulp-below': float(np.nextafter(np.float32(norm), np.float32(0)))}[m]
+    exact = c >= norm or m in ('half', 'quarter')
+    yield {'kind': 'clip', 'struct': st, 'trees': [flat], 'weights': [], 'perm': [0], 'c': float(c), 'norm': norm,
+           'input': 'list', 'wtype': ['float', 'np32', 'jnp', 'jnp_weak'][i % 4], 'leaf': 'jax' if i % 3 else 'np',
+           'tol': 0.0 if exact else TOL, 'kw': False, 'ctx': ['eager', 'jit', 'nojit'][i % 3] if i % 5 == 0 else 'eager',
+           'sweep': m}
+  for i, k in enumerate(ks):
+    for j in ([ks[(i * 3 + 1) % len(ks)]] if tier == 'quick' else ks[::2]):
+      st = rng.choice(small[:2])
+      n = rng.choice([2, 3])
+      ws = [w * 2.0 ** j for w in gen_weights(rng, n, 'pow2')]
+      yield {'kind': rng.choice(['mean', 'agg']), 'struct': st, 'trees': [[dyadic(rng) * 2.0 ** k for _ in range(size(st))] for _ in range(n)],
+             'weights': ws, 'perm': list(reversed(range(n))), 'input': rng.choice(['list', 'gen']), 'wtype': 'float',
+             'leaf': 'jax', 'tol': 0.0, 'dtype': 'float32', 'idtype': 'sentinel', 'kw': False, 'fresh': False, 'reinit': False,
+             'ctx': 'eager', 'sweep': 'scale'}
+  # ---- non-finite values on REAL positions (positive-weight clients): the answer must be non-finite exactly there
+  for i in range({'quick': 16, 'thorough': 120, 'search': 100}.get(tier, 16)):
+    st = rng.choice(small[:2] + [['a', [4]]])
+    k = size(st)
+    n = rng.choice([1, 2, 3])
+    trees = [[dyadic(rng) for _ in range(k)] for _ in range(n)]
+    for _ in range(rng.choice([1, 2])):
+      trees[rng.randrange(n)][rng.randrange(k)] = rng.choice(['nan', 'inf', '-inf'])
+    kind = ['mean', 'agg', 'sum'][i % 3]
+    ws = [] if kind == 'sum' else [float(rng.choice([1, 2, 1, 4])) for _ in range(n)]
+    if ws:
+      ws[-1] += [t for t in (1, 2, 4, 8, 16) if t >= sum(ws)][0] - sum(ws)
+    yield {'kind': kind, 'struct': st, 'trees': trees, 'weights': ws, 'perm': list(reversed(range(n))),
+           'input': rng.choice(['list', 'gen']), 'wtype': 'float', 'leaf': rng.choice(['jax', 'np']), 'tol': 0.0,
+           'dtype': 'float32', 'idtype': 'sentinel', 'kw': False, 'fresh': False, 'reinit': False, 'ctx': 'eager', 'nonfinite': True}
+  # ---- composition of the parts: clip every client tree, take the weighted mean, clip the mean (oracle only)
+  for i in range({'quick': 10, 'thorough': 80, 'search': 60}.get(tier, 10)):
+    st = rng.choice(small[:2] + [['a', [3]]])
+    n = rng.choice([1, 2, 3])
+    yield {'kind': 'pipeline', 'struct': st, 'trees': [[dyadic(rng) for _ in range(size(st))] for _ in range(n)],
+           'weights': gen_weights(rng, n, 'pow2'), 'perm': list(range(n)), 'c': rng.choice([0.5, 1.0, 4.0, 100.0]),
+           'c2': rng.choice([0.25, 2.0, 100.0]), 'input': rng.choice(['list', 'gen']), 'wtype': 'float', 'leaf': 'jax',
+           'tol': TOL, 'dtype': 'float32', 'kw': False, 'ctx': 'eager'}
   # ---- further leaf dtypes (exact): uint8, bool (means only: numpy's bool + bool is OR, not a sum), complex64 (a complex
   # element is two real coordinates), int32 beyond 2^24 (sums only: a float32 round-trip would show)
   n_dt = {'quick': 48, 'thorough': 400, 'search': 300}.get(tier, 48)
@@ -292,6 +360,15 @@ def generate(tier, rng):
     yield {'kind': kind, 'struct': st, 'trees': trees, 'weights': ws, 'perm': perm,
            'input': rng.choice(['list', 'gen', 'iter']), 'wtype': rng.choice(['float', 'int']),
            'leaf': rng.choice(['jax', 'jax', 'np']), 'tol': 0.0, 'dtype': dtype}
+  # ---- global configuration flags (thorough / search): a batch of ordinary cases re-run in a subprocess per flag
+  if tier != 'quick':
+    sub = [c for c in generate('quick', random.Random(rng.randrange(10 ** 6)))
+           if c['kind'] in ('mean', 'agg', 'sum', 'clip', 'weight', 'add') and c['wtype'] in ('float', 'int')
+           and c.get('dtype', 'float32') == 'float32' and c['leaf'] == 'jax' and c.get('ctx', 'eager') == 'eager'
+           and not c.get('nonfinite')][:80]
+    for flag, val in (('jax_enable_x64', True), ('jax_numpy_rank_promotion', 'raise'), ('jax_disable_jit', True)):
+      yield {'kind': 'flagbatch', 'flag': flag, 'value': val, 'cases': sub, 'trees': [], 'weights': [], 'struct': ['a', []],
+             'input': 'list', 'wtype': 'float', 'leaf': 'jax', 'tol': 0.0, 'perm': []}
   for i in range(n_small):
     st = rng.choice(structs)
     k = size(st)
@@ -489,6 +566,8 @@ def _ids(n, idtype):
     return [''] + ['c%d' % i for i in range(1, n)]
   if idtype == 'int':
     return list(range(n))
+  if idtype == 'sentinel':                       # legal ids that look like "absent" / internal keys, not in sorted order
+    return ([None, -1, b'__mask__', '__mask__', b'c02', b'c00', b'c10'] * 2)[:n]
   return [b''] + [b'c%d' % i for i in range(1, n)]
 
 
@@ -570,6 +649,10 @@ def _call(case, order):
       res = tree_util.tree_add(left=trees[0], right=trees[1]) if kw else tree_util.tree_add(trees[0], trees[1])
     elif kind == 'zeros_like':
       res = tree_util.tree_zeros_like(trees[0])
+    elif kind == 'pipeline':
+      clipped = [tree_util.tree_clip_by_global_norm(t, case['c']) for t in trees]
+      arg, it = _wrap([(t, float(w)) for t, w in zip(clipped, case['weights'])], case['input'])
+      res = tree_util.tree_clip_by_global_norm(tree_util.tree_mean(arg), case['c2'])
     elif kind in ('l2', 'size'):
       res = None
       re = lambda v: float(np.real(np.asarray(v)))
@@ -602,6 +685,10 @@ def _call(case, order):
 
 
 def run(case):
+  if case['kind'] == 'flagbatch':
+    from lib import flagrun
+    obs, err = flagrun.run_cases('c07', case['cases'], {case['flag']: case['value']})
+    return {'error': None, 'sub': obs, 'sub_error': err}
   try:
     first = _call(case, list(range(len(case['trees']))))
     second = _call(case, case['perm']) if case['kind'] in ('mean', 'agg', 'sum') and len(case['trees']) > 1 else None
@@ -617,6 +704,8 @@ def run(case):
 # ---------------------------------------------------------------------------
 
 def _close0(a, b, tol=TOL):
+  if b is not None and not math.isfinite(b):
+    return a is None
   if a is None or b is None:
     return a is None and b is None
   return abs(a - b) <= tol * (1 + abs(b))
@@ -624,22 +713,25 @@ def _close0(a, b, tol=TOL):
 
 def _scale(case):
   """Magnitude of the inputs: float32 rounding errors of sums are relative to it."""
-  m = max([abs(v) for t in case['trees'] for v in t] + [0.0])
+  m = max([abs(_num(v)) for t in case['trees'] for v in t if math.isfinite(_num(v))] + [0.0])
   if case['kind'] == 'sum':
     m *= len(case['trees'])
-  return 1.0 + m
+  return m          # purely relative to the data: tiny trees are judged as strictly as large ones
 
 
 def _tol(case):
   """Tolerance handed to Coq (exact rational): 0 for the exact streams."""
   if case['tol'] == 0:
     return Fraction(0)
-  return Fraction(math.ceil(case['tol'] * _scale(case) * 10 ** 7), 10 ** 7)
+  return Fraction(case['tol']) * Fraction(_scale(case))
 
 
 def _asdt(case, v):
   """The value the leaf actually holds: v rounded to the leaf dtype (exact for all generated exact-stream values)."""
   d = case.get('dtype', 'float32')
+  v = _num(v)
+  if not math.isfinite(v):
+    return v
   if d == 'complex64':
     return float(np.float32(v))
   if d == 'bool':
@@ -650,6 +742,17 @@ def _asdt(case, v):
 
 
 def oracle(case, obs):
+  if case['kind'] == 'flagbatch':
+    if obs['sub'] is None:
+      return [('flag-subprocess-failed', f'{case["flag"]}={case["value"]}: {obs["sub_error"]}')]
+    out = []
+    for c, o in zip(case['cases'], obs['sub']):
+      out += [(f'{case["flag"]}:{k}', w) for k, w in _oracle(c, o)]
+    return out[:5]
+  return _oracle(case, obs)
+
+
+def _oracle(case, obs):
   out = []
   kind = case['kind']
   if obs.get('error'):
@@ -690,7 +793,25 @@ def oracle(case, obs):
   trees = [np.array([_asdt(case, v) for v in t], dtype=np.float64) for t in case['trees']]
   sc = _scale(case)
   _close = lambda a, b, tol=TOL: _close0(a, b, tol * sc)
-  if kind in ('mean', 'agg'):
+  if case.get('nonfinite') and kind in ('mean', 'agg', 'sum'):
+    # a NaN / Inf in a real (positive-weight) client's coordinate must come out as non-finite in exactly that coordinate
+    with np.errstate(all='ignore'):
+      if kind == 'sum':
+        want = sum(trees)
+      else:
+        ws = np.array(case['weights'], dtype=np.float64)
+        want = sum(w * t for w, t in zip(ws, trees)) / ws.sum()
+    if not all(_close(r, float(w)) for r, w in zip(res, want)):
+      out.append(('nonfinite-propagation', f'{kind}: non-finite input coordinates are not propagated exactly (got {res}, expected {list(want)})'))
+  elif kind == 'pipeline':
+    def clip(x, c):
+      n = math.sqrt(float(np.sum(x * x)))
+      return x * (c / n) if n > c else x
+    ws = np.array(case['weights'], dtype=np.float64)
+    want = clip(sum(w * clip(t, case['c']) for w, t in zip(ws, trees)) / ws.sum(), case['c2'])
+    if any(r is None for r in res) or not all(_close(r, float(w)) for r, w in zip(res, want)):
+      out.append(('pipeline-value', 'clip(mean(clip(x_i))) differs from its definition'))
+  elif kind in ('mean', 'agg'):
     ws = np.array(case['weights'], dtype=np.float64)
     tot = ws.sum()
     if any(v is None for v in res):
@@ -714,7 +835,7 @@ def oracle(case, obs):
     want = sum(trees)
     if any(v is None for v in res) or not all(_close(r, w) for r, w in zip(res, want)):
       out.append(('sum-value', 'tree_sum is not the coordinatewise sum'))
-  if obs.get('res_perm') is not None:
+  if obs.get('res_perm') is not None and not case.get('nonfinite'):
     if not all(_close(a, b, 4 * TOL) for a, b in zip(obs['res_perm'], res)):
       out.append(('order', 'a different client order gives a different result'))
   if kind == 'clip':
@@ -730,6 +851,8 @@ def oracle(case, obs):
           out.append(('clip-identity', 'norm <= bound but the tree was changed'))
         if n > c and not all(_close(r, v * c / n) for r, v in zip(res, x)):
           out.append(('clip-direction', 'clipped tree is not (bound / norm) * x'))
+        if n > c and abs(rn - c) > 4 * TOL * c:
+          out.append(('clip-norm-not-bound', f'norm {n} exceeds the bound {c} but the clipped norm is {rn}'))
   elif kind == 'weight':
     if not all(_close(r, v * case['weights'][0]) for r, v in zip(res, trees[0])):
       out.append(('weight-value', 'tree_weight is not leaf * weight'))
@@ -747,7 +870,7 @@ def oracle(case, obs):
 # ---------------------------------------------------------------------------
 
 def encode(case, obs):
-  if case['kind'] in ('l2', 'size', 'zeros_like'):
+  if case['kind'] in ('l2', 'size', 'zeros_like', 'pipeline', 'flagbatch'):
     return None
   _qtree = lambda t: '[' + '; '.join(fw.qlit(_asdt(case, v)) for v in t) + ']'
   if obs.get('error') or obs['res'] is None:
@@ -755,6 +878,14 @@ def encode(case, obs):
   else:
     res = '(Some [' + '; '.join('None' if v is None else f'Some {fw.qlit(v)}' for v in obs['res']) + '])'
   kind = case['kind']
+  if case.get('nonfinite'):
+    nq = lambda v: 'None' if not math.isfinite(_num(v)) else f'(Some {fw.qlit(_asdt(case, v))})'
+    nqt = lambda t: '[' + '; '.join(nq(v) for v in t) + ']'
+    if kind == 'sum':
+      c = 'KSumNQ [' + '; '.join(nqt(t) for t in case['trees']) + ']'
+    else:
+      c = 'KMeanNQ [' + '; '.join(f'({nqt(t)}, Some {fw.qlit(w)})' for t, w in zip(case['trees'], case['weights'])) + ']'
+    return f'(({c})%Q, mkO07 {fw.qlit(_tol(case))} {res}%Q)'
   ws = [fw.qlit(float(np.float32(w)) if case['wtype'] in ('np32', 'jnp', 'jnp0d', 'np0d', 'jnp_weak', 'np64') else float(w)) for w in case['weights']]
   if kind == 'mean':
     c = 'KMean [' + '; '.join(f'({_qtree(t)}, {w})' for t, w in zip(case['trees'], ws)) + ']'
@@ -774,6 +905,10 @@ def encode(case, obs):
 
 
 def nontrivial(case, obs):
+  if case['kind'] == 'flagbatch':
+    return False
+  if case['kind'] == 'pipeline':
+    return True
   if case['kind'] in ('mean', 'agg'):
     return len({w for w in case['weights'] if w > 0}) >= 2
   if case['kind'] == 'clip':
@@ -782,7 +917,12 @@ def nontrivial(case, obs):
 
 
 def describe(case, obs):
+  if case['kind'] == 'flagbatch':
+    return {'kind': 'flagbatch', 'flag': case['flag'], 'sub_cases': len(case['cases'])}
   d = {'kind': case['kind'], 'clients': len(case['trees']), 'input': case['input'], 'exact': case['tol'] == 0,
+       'sweep': case.get('sweep', 'none'), 'nonfinite_input': bool(case.get('nonfinite')),
+       # hypotheses of the value theorems: finite leaves, weights >= 0 (clip: bound >= 0; n*n = sumsq is checked in Coq)
+       'hyp_finite_inputs': not case.get('nonfinite'), 'hyp_weights_nonneg': all(w >= 0 for w in case['weights']),
        'dtype': case.get('dtype', 'float32'), 'ctx': case.get('ctx', 'eager'), 'kw': bool(case.get('kw')),
        'leaves': min(len(leaf_shapes(case['struct'])), 6)}
   if case['kind'] in ('mean', 'agg'):
@@ -800,6 +940,8 @@ def describe(case, obs):
 
 
 def shrink(case):
+  if case['kind'] == 'flagbatch':
+    return
   n = len(case['trees'])
   if case['kind'] in ('mean', 'agg', 'sum') and n > 1:
     for i in range(n):
